@@ -30,7 +30,7 @@ def run(ctx):
         raise core.Machinery("the pinned chunking loop is not refuted")
     # the splitting of unparsed chunks and the choice among candidate splits (SearchSplit.tla): its laws
     ss = ctx.tlc("P_SearchSplit", "SPECIFICATION Spec\nCONSTANTS\n  MaxN = %d\n  MaxPieces = %d\nINVARIANT Lossless\nINVARIANT CandidateCount\nINVARIANT GroupSizes\n"
-                 "INVARIANT BestExists\nINVARIANT BestUnbeaten\nINVARIANT FullyParsedWins\nINVARIANT EmptyCandidateWins\nCHECK_DEADLOCK FALSE\n" % ((40, 2) if ctx.quick() else (200, 3)),
+                 "INVARIANT RelativeBaseLaw\nINVARIANT BestExists\nINVARIANT BestUnbeaten\nINVARIANT FullyParsedWins\nINVARIANT EmptyCandidateWins\nCHECK_DEADLOCK FALSE\n" % ((40, 2) if ctx.quick() else (200, 3)),
                  timeout=3000, name="P_SearchSplit")
     ss.require_clean()
     for inv in ss.invariant_violated:
@@ -219,7 +219,7 @@ def run(ctx):
     ctx.notes.append({"reject_classes": {"|".join(map(str, k)): v for k, v in seen.items()}})
     cov = {
         "chunking_calls_validated": len(crecs), "chunking_drift": chunk_drift,
-        "split_events_validated": {"split_by": sum(1 for x in srecs if x["kind"] == "splitby"), "choose_best_split": sum(1 for x in srecs if x["kind"] == "best"),
+        "split_events_validated": {"split_by": sum(1 for x in srecs if x["kind"] == "splitby"), "choose_best_split": sum(1 for x in srecs if x["kind"] == "best"), "set_relative_base": sum(1 for x in srecs if x["kind"] == "relbase"),
                                    "with_more_than_three_pieces": sum(1 for x in srecs if x["kind"] == "splitby" and x["n"] > 3)}, "split_drift": split_drift,
         "language_choices_validated": sum(len(r.get("detect", [])) for r in results),
         "evaluations": len(cases), "distinct_nontrivial": len({(c["text"], repr(c["languages"])) for c, r in zip(cases, results) if r["hits"]}),
